@@ -45,7 +45,10 @@ def dir2(chk, quick, rnd):
     g = ia32space.gen(1, False, None, chk)
     hexes = sorted(set(g['done']))
     if quick:
-        hexes = rnd.sample(hexes, min(len(hexes), 25000))
+        # every base form (one state per opcode row and operand form: MaxDev = 0) plus a sample of the one-deviation variants
+        base = sorted(set(ia32space.gen(0, False, None, chk)['done']))
+        rest = sorted(set(hexes) - set(base))
+        hexes = sorted(set(base) | set(rnd.sample(rest, min(len(rest), 20000))))
     lay = render_pass(chk, hexes)
     ids = sorted(lay)
     gas = asmlib.gnu_as([asm_text.render(lay[k]['intel']) for k in ids], 'intel')
